@@ -133,3 +133,36 @@ _add('C09',
      'Mechanism clauses (exact index from the draw; counters = true lines) are correspondence obligations; open findings F-09a, F-09b are reported as '
      'KNOWN-FINDING. Probabilities are eighths (exact in binary64); one-ulp effects of float probabilities are outside the model.',
      technique='Coq theorems about a hand-written model of random_choice/JSQ + acceptor; conformance of real traces and stepwise correspondence of each decision with the model')
+_add('C20',
+     'Sub/Decimal.v (Coq, Z and Q, executable): decimals as (coefficient, exponent); add_k = exact sum at the smaller exponent rounded half-even to k '
+     'significant digits (Python\'s context addition; a - b = a + (-b)); of_lit reads decimal literals. Proved: ndigits_le (the digit count used by the '
+     'rounding is |n| < 10^k); add_exact / sub_exact (if the exact sum can be written with <= k significant digits, trailing zeros included, the result\'s '
+     'value in Q is the exact sum); sum_exact + sum_ticks (no drift: a left fold of add_k over samples with <= d fractional digits, every partial sum of which '
+     'has <= k digits in units of 10^-d, is the exact rational sum, and in ticks of 10^-d it is the integer sum - the exact-mode accumulation is the tick run); '
+     'coincide + coincide_fold (any two orders and groupings of the same samples, no intermediate overflow, give == Decimals: mathematically simultaneous '
+     'events are simultaneous); dec_eqb_spec; of_lit_value; add_exact_refuted / coincide_refuted (by vm_compute: at 3 digits 1.23+0.004 is rounded and two '
+     'groupings of 1.00, 0.004, 0.004 differ - the precision hypothesis is not vacuous). T1 C20_sound: a record set accepted by the extracted acceptor has the '
+     'discrete fields of the tick run and every date/duration is a Decimal with <= k digits whose value is exactly ticks*10^-d. '
+     'K1: every generated integer-tick configuration (core incl. non-pre-emptive priorities, reneging, schedules, pre-emption, slotted, mixed) is run by the real '
+     'engine with exact=k (k in 10..30) on the grids 1/4, 1/10 and 1/1000 and as a dyadic float run (= tick run); all records, the numbers of events and of '
+     'uniform draws must agree (tie-rich inputs: ~58% of consecutive events are simultaneous). Object level: Python decimal (prec=k, ROUND_HALF_EVEN) vs extracted '
+     'add_k / of_lit / running sums / comparison on random operands incl. exact ties, carries, cancellations, zeros, far exponents; real low-precision exact runs '
+     'whose arrival dates are rounded at every step vs the model\'s running sums; kernel (vm_compute) vs extracted on the same cases.',
+     'The clause "agrees with the float run up to rounding" is PARTIAL by design: binary rounding is outside the model; the float run on the same non-dyadic '
+     'values is compared and reported (largest gap among structurally identical runs, number of runs whose event order diverged), never judged. Schedule/Slotted '
+     'dates are computed by Ciw in binary floating point: configurations whose shift dates are not exact decimals within the horizon are discarded and counted. '
+     'Open finding F-20c (float shift/slot dates compared raw with Decimal event dates, so a shift change at float 0.2 and an end of service at Decimal 0.2 do not '
+     'coincide) is recognised by a frame-level trigger (a pseudo-tie before the first differing record, all dates still well-formed) and reported as KNOWN-FINDING; '
+     'F-20a, F-20b, F-20d are fixed in /repo and their reverts are caught. The Gallina decimal model is tied to CPython\'s decimal module by differential testing, not by proof.',
+     technique='Coq theorems about a hand-written executable model of Decimal addition + acceptor; differential testing against Python decimal and conformance of real exact-mode runs against the tick run')
+_add('C11',
+     'T1 C11_sound (Coq, induction over event lists of any length): on every accepted run the victim of a pre-emption is in service, of the lowest '
+     'priority in service and the most recently started among those, and the pre-emptor has strictly higher priority; every interruption (priority '
+     'pre-emption or pre-emptive shift change) is recorded, dated at the interruption, before the victim is served again or leaves; when served '
+     'again it receives the remaining time (resume) or the same time again (restart); under resume the time in service summed over all stints of a '
+     'visit equals the original requirement (telescoping identity PROVED from the local checks via an invariant, not checked); after every event no '
+     'customer waits at a pre-emptive node while one of strictly lower priority is served. K1: observed runs (pre-emptive priorities with 2-3 levels, '
+     'LIFO/SIRO, class changes while waiting, reneging, pre-emptive schedules and capacitated slots).',
+     'Scope as in the property: nodes whose customers are never blocked (a run is cut at the first interruption of a blocked customer; nodes holding a '
+     'blocked customer are skipped by the inversion clause). Open finding F-11a (reroute into the same node starts the pre-emptor twice) is '
+     'reported as KNOWN-FINDING.')
